@@ -24,19 +24,37 @@ def alignBool? (a : Args) (k : String) : Option Bool :=
   | some 1 => some true
   | _ => none
 
+/-- Stored size of the entry the stream writes (`CONTENT` in align.rs); `clen=` overrides it. -/
+def alignContentLen (a : Args) : UInt64 := UInt64.ofNat ((a.nat? "clen").getD 26)
+
+/-- Initial sink position `off` (default 0) and the limits the harness runs. -/
+def alignOff? (a : Args) (pre : Nat) : Option Nat :=
+  let off := (a.nat? "off").getD 0
+  if off > 1099511627776 || pre > 1048576 then none else some off
+
 def opAlign (op : String) (a : Args) : Option String := do
   match op with
   | "align.start" =>
     let pre ← a.nat? "pre"; let nl ← a.nat? "name_len"; let large ← alignBool? a "large"; let al ← a.nat? "a"
     if al > 65535 || nl > 70000 || (0 < pre && pre < 31) then some "bad-op" else
-    match alignedPlacement (UInt64.ofNat pre) nl large (UInt16.ofNat al) with
+    match alignOff? a pre with
+    | none => some "bad-op"
+    | some off =>
+    let hs := UInt64.ofNat (off + pre)
+    match alignedPlacement hs nl large (UInt16.ofNat al) with
     | .ok r =>
       -- reader: data_start from the local header's own length fields; content round trip and the
       -- raw bytes at data_start are the archive-level model's business (printed as constants)
-      match readerDataStart (UInt64.ofNat pre) (UInt16.ofNat nl) r.xlenField with
+      match readerDataStart hs (UInt16.ofNat nl) r.xlenField with
       | .ok ds =>
         let rt := if ds == r.dataStart then 1 else 0
-        some s!"ok ret={r.ret.toNat} ds={ds.toNat} xlen={r.xlenField.toNat} lx={alignShowLx r.localExtra} cx={toHex r.centralExtra} rt={rt} raw={rt}"
+        -- what `extra_data()` returns: the central record's whole extra field
+        let st : EntrySt := { EntrySt.init hs nl large with extraField := r.centralExtra }
+        match st.centralExtraAll (alignContentLen a) (alignContentLen a) with
+        | .ok cx =>
+          some s!"ok ret={r.ret.toNat} ds={ds.toNat} xlen={r.xlenField.toNat} lx={alignShowLx r.localExtra} cx={toHex cx} rt={rt} raw={rt}"
+        | .err e => some s!"{Out.className e} at=finish"
+        | .panic _ => some "panic"
       | _ => some "panic"
     | .err e => some (Out.className e)
     | .panic _ => some "panic"
@@ -52,7 +70,11 @@ def opAlign (op : String) (a : Args) : Option String := do
       | some "split" => some ExtraMode.split
       | some "centralonly" => some ExtraMode.centralOnly
       | _ => none
-    match extraLocalPhase 0 1 large mode lo with
+    match alignOff? a 0 with
+    | none => some "bad-op"
+    | some off =>
+    let hs := UInt64.ofNat off
+    match extraLocalPhase hs 1 large mode lo with
     | .err e => some s!"{Out.className e} at=local"
     | .panic _ => some "panic"
     | .ok st1 =>
@@ -60,10 +82,15 @@ def opAlign (op : String) (a : Args) : Option String := do
       | .err e => some s!"{Out.className e} at=central"
       | .panic _ => some "panic"
       | .ok st =>
-        match readerDataStart 0 1 st.xlenField with
+        -- `finish`: the central record must hold its own ZIP64 record and the central extra data
+        match st.centralExtraAll (alignContentLen a) (alignContentLen a) with
+        | .err e => some s!"{Out.className e} at=finish"
+        | .panic _ => some "panic"
+        | .ok cx =>
+        match readerDataStart hs 1 st.xlenField with
         | .ok ds =>
           let rt := if ds == st.dataStart then 1 else 0
-          some s!"ok ds={ds.toNat} xlen={st.xlenField.toNat} lx={toHex st.localExtra} cx={toHex st.extraField} rt={rt} raw={rt}"
+          some s!"ok ds={ds.toNat} xlen={st.xlenField.toNat} lx={toHex st.localExtra} cx={toHex cx} rt={rt} raw={rt}"
         | _ => some "panic"
   | _ => none
 
